@@ -111,8 +111,16 @@ func (cs *connScript) describe() string {
 		}
 		if len(it.Msg.Answers) > 0 && it.Kind != kSilence && it.Kind != kZeroLen && it.Kind != kShort && it.Kind != kGarbage {
 			b.WriteString(" an=")
-			for _, r := range it.Msg.Answers {
-				fmt.Fprintf(&b, "(t%d ttl=%d %v)", r.Type, r.TTL, r.Addr)
+			for i, r := range it.Msg.Answers {
+				if i == 4 && len(it.Msg.Answers) > 6 {
+					fmt.Fprintf(&b, "...%d records...", len(it.Msg.Answers)-5)
+				}
+				if i < 4 || i == len(it.Msg.Answers)-1 || len(it.Msg.Answers) <= 6 {
+					fmt.Fprintf(&b, "(t%d ttl=%d %v)", r.Type, r.TTL, r.Addr)
+				}
+			}
+			if it.Msg.PadTo > 0 {
+				fmt.Fprintf(&b, " paddedTo=%dB", it.Msg.PadTo)
 			}
 		}
 		for _, r := range it.Msg.Authority {
@@ -325,6 +333,10 @@ func runHistory(t *testing.T, p *histPlan) (viol string, st *histStats) {
 					}
 					for _, f := range []int{4, 6} {
 						st.label("acc-" + respKindNames[evl.acc[f].RK])
+						if pt := evl.acc[f].Msg.PadTo; pt > 0 {
+							st.label(bigClass(pt))
+							st.label(fmt.Sprintf("tcp-response-%d-records+", len(evl.acc[f].Msg.Answers)/1000*1000))
+						}
 					}
 					if len(ne.members) > 1 {
 						st.label("expiry-choice-open")
@@ -386,13 +398,13 @@ var recHist = ev.New("C17", "tcp-histories",
 	"rapid + synctest: TCP-only resolver built through dns.ResolverConfig, cache size {1..4, default, unbounded}, capacity+0..2 names, 3..14 lookups "+
 		"(Lookup/LookupIP/LookupIPs); before each lookup the virtual clock is advanced by nothing, a fixed amount (1 ms..1 d, 30 s±1 ms) or to an admissible "+
 		"expiry instant of the name's entry ±{0,1 ms,1 s,10 s}; each lookup has a scripted upstream of up to two connections whose items are acceptable responses "+
-		"(addresses with CNAME/TXT/MX/other-family RRs mixed in, NODATA/NXDOMAIN with/without SOA, failure rcodes, TC over TCP; TTL alphabet 0..2^31-1 plus 2^31, 2^32-1) "+
+		"(addresses with CNAME/TXT/MX/other-family RRs mixed in, large answers padded to exactly 512/1232/1234/4096/16384/65535 bytes -1..+40 with up to 4000 A / 2300 AAAA records, NODATA/NXDOMAIN with/without SOA, failure rcodes, TC over TCP; TTL alphabet 0..2^31-1 plus 2^31, 2^32-1) "+
 		"or unusable ones (foreign ID, QR=0, RA=0, rcode>5, zero length, <12 bytes, garbage, cut RR, ANCOUNT too large, pointer loop, close mid-message, silence), "+
 		"optionally delayed (1 ms..25 s), plus dial errors. Oracle: reference model over the items the upstream saw consumed. "+
 		"Non-trivial: the history re-queries an entry whose admissible expiry passed AND has a failed lookup followed by a successful one for the same name; "+
 		"distinct key = cache size, name count and per-step (name, hit/miss/evict/fail/stale) string").
 	Require("expiry-crossed", "failure-then-success", "stale-served-after-failed-refresh", "lru-eviction", "at-expiry-instant", "expiry+1ms", "expiry-1ms",
-		"second-connection", "timeout-20s", "consumed-wrongid", "consumed-notresp", "consumed-nora", "consumed-garbage", "consumed-zerolen", "consumed-midclose",
+		"second-connection", "timeout-20s", "tcp-response>512B", "tcp-response>1234B", "tcp-response>4096B", "tcp-response>16384B", "tcp-response>=65000B", "consumed-wrongid", "consumed-notresp", "consumed-nora", "consumed-garbage", "consumed-zerolen", "consumed-midclose",
 		"consumed-cut", "acc-failure-rcode", "acc-nxdomain+soa", "acc-nodata+soa", "acc-nodata", "acc-tc-over-tcp", "expiry-choice-open")
 
 func journalPath(name string) string {
@@ -418,7 +430,25 @@ func writeJournal(name string, v any) string {
 	return p
 }
 
+// checkPadding makes sure the encoder really produces the sizes the labels claim.
+func checkPadding(t *testing.T) {
+	for _, name := range []string{nameOf(0), "udp.verif.test"} {
+		for _, target := range []int{511, 512, 1232, 1233, 1234, 1235, 4096, 16384, 65534, 65535} {
+			for _, fam := range []int{4, 6} {
+				for _, opt := range []bool{false, true} {
+					m := genBigFixed(fam, target, opt, &addrGen{scope: 1})
+					m.QName, m.QType, m.ID = name, tA, 4
+					if got := len(m.pack()); got != target {
+						t.Fatalf("harness: padded message is %d bytes, want %d (fam %d opt %v name %s)", got, target, fam, opt, name)
+					}
+				}
+			}
+		}
+	}
+}
+
 func TestResolverHistories(t *testing.T) {
+	checkPadding(t)
 	rapid.Check(t, func(rt *rapid.T) {
 		p := genHistPlan(rt)
 		j := writeJournal("hist", p)
